@@ -142,3 +142,62 @@ class CFG:
             return True
         seen = self.reachable_from(src, avoid=set(through))
         return not (seen & set(dst_set))
+
+
+def ccp_reachable(body, start, unwind=False):
+    """blocks reachable from `start` under conditional constant propagation of locals that are
+    assigned literal bool / integer constants (drop flags, `matches!` results): a switch on a
+    local whose value is a known constant follows only the matching edge.  Forward dataflow with
+    intersection at joins (sound: an unknown value follows every edge)."""
+    import facts as F
+    n = len(body["blocks"])
+    state = {start: {}}
+    work = [start]
+    TOP = object()
+    while work:
+        b = work.pop()
+        st = dict(state[b])
+        blk = body["blocks"][b]
+        for s in blk["stmts"]:
+            if s[0] == "assign" and len(s[1]) == 1:
+                rv = s[2]
+                tgt = s[1][0]
+                val = None
+                if rv[0] == "use":
+                    c = F.op_const(rv[1])
+                    if c is not None and ("bool" in c or "int" in c):
+                        val = int(c.get("bool", c.get("int")))
+                    else:
+                        l = F.op_local(rv[1])
+                        if l is not None and l in st:
+                            val = st[l]
+                if val is None:
+                    st.pop(tgt, None)
+                else:
+                    st[tgt] = val
+            elif s[0] == "assign":
+                pass
+        t = blk["term"]
+        if t["k"] == "call" and t.get("dest") and len(t["dest"]) == 1:
+            st.pop(t["dest"][0], None)
+        succs = F.succ(body, b, unwind)
+        if t["k"] == "switch":
+            l = F.op_local(t["discr"])
+            if l is not None and l in st:
+                v = st[l]
+                tg = None
+                for av, at in t["arms"]:
+                    if av == v:
+                        tg = at
+                succs = [tg if tg is not None else t["otherwise"]]
+        for s2 in succs:
+            if s2 not in state:
+                state[s2] = dict(st)
+                work.append(s2)
+            else:
+                old = state[s2]
+                new = {k: v for k, v in old.items() if st.get(k, TOP) == v}
+                if new != old:
+                    state[s2] = new
+                    work.append(s2)
+    return set(state)
